@@ -683,7 +683,7 @@ class XmlPeriod(UserString):
             day, offset = parse_date_args(value, DateFormat.G_DAY)
         elif value.startswith("--"):
             # Bogus format --MM--, --05---05:00
-            if value[4:6] == "--":
+            if value[4:6] == "--" and len(value) in (6, 7, 12):
                 value = value[:4] + value[6:]
 
             if len(value) in (4, 5, 10):  # fixed lengths with/out timezone
